@@ -10,7 +10,7 @@ trap 'git -C /repo worktree remove --force "$WT" >/dev/null 2>&1' EXIT
 git -C "$WT" apply "$P" || { echo "PATCH DOES NOT APPLY"; exit 4; }
 ( cd "$WT" && /venv/bin/python -m pytest -q -x -p no:cacheprovider --timeout=900 >/dev/null 2>&1 ) || { echo "PINNED SUITE FAILS WITH THE CHANGE"; exit 4; }
 if [ -n "$DEMO" ]; then
-  ( cd "$WT" && /venv/bin/python "$(readlink -f "$DEMO")" >/dev/null 2>&1 ) && { echo "DEMO PASSES WITH THE CHANGE (not a breaking change?)"; exit 4; }
+  ( cd "$WT" && PYTHONPATH="$WT" /venv/bin/python "$(readlink -f "$DEMO")" >/dev/null 2>&1 ) && { echo "DEMO PASSES WITH THE CHANGE (not a breaking change?)"; exit 4; }
 fi
 cd /verif && VERIF_REPO="$WT" ./check "$ID" --tier "$TIER" > "/var/tmp/verif_mut_$$.log" 2>&1
 rc=$?
